@@ -1,6 +1,6 @@
 //go:build verif
 
-package bcd
+package transport
 
 // Contract-language built-ins. Declarations only; they are never called by
 // non-verif code. The verifier interprets them; replays execute them.
